@@ -79,7 +79,24 @@ def guarded (st : HState) (r : Nat) (op : SyncOp) : HState × List String :=
     ({ st with sys := st.sys.commit r [op] 0 }, ["ok"])
   else (st, ["skip"])
 
-def stepLine (st : HState) (line : String) : HState × List String :=
+def freezeFlight (us : List Nat) (ks : List String) (f : Flight) : Flight :=
+  let table := tabulate us ks f.T
+  { f with T := dbOfTable table }
+
+def freezeRep (us : List Nat) (ks : List String) (x : Rep) : Rep :=
+  let table := tabulate us ks x.T
+  let fl := x.fl.map (freezeFlight us ks)
+  { x with T := dbOfTable table, fl := fl }
+
+/-- re-tabulate every task set of the system (see `tabulate`) -/
+def HState.freeze (st : HState) : HState :=
+  let us := sortDedup st.uuids
+  let reps := (List.range st.nreps).map fun r => freezeRep us st.keys (st.sys.reps r)
+  let snap := st.sys.snap.map fun (v, d) => (v, tabulate us st.keys d)
+  let sys : Sys := { st.sys with reps := fun r => reps.getD r (st.sys.reps r), snap := snap.map fun (v, t) => (v, dbOfTable t) }
+  { st with sys := sys, uuids := us }
+
+def stepLineRaw (st : HState) (line : String) : HState × List String :=
   match line.trimAscii.toString.splitOn " " with
   | ["R", n] => ({ st with nreps := n.toNat?.getD 0 }, [])
   | "C" :: r :: rest =>
@@ -155,5 +172,9 @@ def stepLine (st : HState) (line : String) : HState × List String :=
     (st, reps ++ pends ++ [s!"chain len={S.chain.length}"] ++ chain ++ [snap])
   | [""] => (st, [])
   | _ => (st, ["bad-op"])
+
+def stepLine (st : HState) (line : String) : HState × List String :=
+  let (st', outs) := stepLineRaw st line
+  (if line.startsWith "Q" || line.startsWith "R" then st' else st'.freeze, outs)
 
 end Tc.Driver
